@@ -78,6 +78,9 @@ PROPS = {
         families=[
             dict(mode="det", name="mq_mpsc", quick=400, thorough=4000, nontrivial=r"cas \S+ \S+ \S+ 0 AcqRel|MpscBlock\d+\+63!|ready@\S+ load 0 0 0 "),
             dict(mode="det", name="mq_spsc", quick=400, thorough=4000, nontrivial=r"mq\.spsc\.first@\d+ store|t0 ret - mq\.(pop|peek) -1 |t0 ret - mq\.bulk_pop 0 "),
+            # systematic (<= 2 preemptions): ring of two blocks, bulk_pop ending on the block boundary racing the push that
+            # recycles the released block (the history of seeded change C03_b)
+            dict(mode="detx", name="mq_spsc_ring", quick=2, thorough=8, nontrivial=r"mq\.spsc\.first@\d+ store|mq\.spsc\.last_head@\d+ store"),
         ],
         trusted_base=TB_COMMON + [
             "two-level models: the FIFO refinement is proved at level A (logical indices); the replayed per-atomic-operation models (level B) are PROVED to refine level A and to be block safe (Props/C03: mpscB_refines_A, spscB_refines_A, *_block_safe), and the same simulation is re-checked executably on every replayed trace",
@@ -90,7 +93,7 @@ PROPS = {
             "user-space addresses are below 2^63 (bit 63 of a block pointer is clear)",
             "bulk_pop is treated as a sequence of pops (one linearization point per element)",
         ],
-        rule="det mode, may_queue called directly (every atomic access is an event and a schedule point): mpsc 1-3 producers x 1-4 pushes against a consumer mixing pop/bulk_pop/peek/len/is_empty/push after a traced single-threaded prologue that places head and tail at offsets B-3..B+1 (sometimes 2B-3..2B+1) of the 64-slot block, queue dropped with values left; spsc one producer / one consumer with the contended phase starting at offsets B-3..B+1 or after several blocks (block recycling); non-trivial = a failed CAS, the closing bit, a not-ready slot read, a recycled block or an empty result in the trace; distinct = SHA-1 of the canonical trace",
+        rule="det mode, may_queue called directly (every atomic access is an event and a schedule point): mpsc 1-3 producers x 1-4 pushes against a consumer mixing pop/bulk_pop/peek/len/is_empty/push after a traced single-threaded prologue that places head and tail at offsets B-3..B+1 (sometimes 2B-3..2B+1) of the 64-slot block, queue dropped with values left; spsc one producer / one consumer with the contended phase starting at offsets B-3..B+1 or after several blocks (block recycling); every non-atomic slot write / read is an event and a schedule point too (hooks in front of the access inside BlockNode::set/get/try_get/peek); ring scenarios (two recycled blocks, whole-block bulk_pops) in the random family and, as family mq_spsc_ring, explored systematically (detx: all schedules with <= 2 preemptions of 2 seeded scenarios); non-trivial = a failed CAS, the closing bit, a not-ready slot read, a recycled block or an empty result in the trace; distinct = SHA-1 of the canonical trace",
     ),
     "C05": dict(
         lean_props=["MayVerif.Props.C05"],
